@@ -1,14 +1,4 @@
-import PsecModel.Py
-import PsecModel.Cipher.DES
-import PsecModel.Cipher.AES
-import PsecModel.Cipher.Iface
-import PsecModel.Model.Tools
-import PsecModel.Model.Des
-import PsecModel.Model.Mac
-import PsecModel.Model.Card
-import PsecModel.Model.Pinblock
-import PsecModel.Model.Tr31
-import PsecModel.Spec.ISO9797
-import PsecModel.Spec.CMAC
-import PsecModel.Spec.ISO9564
-import PsecModel.Spec.CardVerif
+import PsecModel.Exec
+import PsecModel.Conc
+import PsecModel.Generated.Effects
+import PsecModel.Props.C18
